@@ -489,11 +489,11 @@ func c16Test(fn string, quick, thorough int) func(*testing.T) {
 	}
 }
 
-func TestC16_Exp(t *testing.T)   { c16Test("Exp", 6000, 400000)(t) }
-func TestC16_Exp2(t *testing.T)  { c16Test("Exp2", 6000, 400000)(t) }
-func TestC16_Exp10(t *testing.T) { c16Test("Exp10", 6000, 400000)(t) }
-func TestC16_Expm1(t *testing.T) { c16Test("Expm1", 6000, 400000)(t) }
-func TestC16_Log(t *testing.T)   { c16Test("Log", 6000, 400000)(t) }
-func TestC16_Log2(t *testing.T)  { c16Test("Log2", 6000, 400000)(t) }
-func TestC16_Log10(t *testing.T) { c16Test("Log10", 6000, 400000)(t) }
-func TestC16_Log1p(t *testing.T) { c16Test("Log1p", 6000, 400000)(t) }
+func TestC16_Exp(t *testing.T)   { c16Test("Exp", 15000, 400000)(t) }
+func TestC16_Exp2(t *testing.T)  { c16Test("Exp2", 15000, 400000)(t) }
+func TestC16_Exp10(t *testing.T) { c16Test("Exp10", 15000, 400000)(t) }
+func TestC16_Expm1(t *testing.T) { c16Test("Expm1", 15000, 400000)(t) }
+func TestC16_Log(t *testing.T)   { c16Test("Log", 15000, 400000)(t) }
+func TestC16_Log2(t *testing.T)  { c16Test("Log2", 15000, 400000)(t) }
+func TestC16_Log10(t *testing.T) { c16Test("Log10", 15000, 400000)(t) }
+func TestC16_Log1p(t *testing.T) { c16Test("Log1p", 15000, 400000)(t) }
